@@ -25,7 +25,11 @@ def close(a, b):
     if a.shape != b.shape:
         return False
     with np.errstate(invalid="ignore"):
-        ok = np.abs(a - b) <= ATOL + RTOL * np.maximum(np.abs(a), np.abs(b))
+        # the absolute allowance scales with the largest finite magnitude present (entries of size 1e-9 next to nothing larger are
+        # compared relatively; a cancellation residue next to entries of size 1 is allowed)
+        fin = np.abs(np.concatenate([a[np.isfinite(a)].ravel(), b[np.isfinite(b)].ravel()]))
+        scale = min(1.0, float(fin.max())) if fin.size and fin.max() > 0 else 1.0
+        ok = np.abs(a - b) <= ATOL * scale + RTOL * np.maximum(np.abs(a), np.abs(b))
     return bool(np.all(ok | (np.isnan(a) & np.isnan(b)) | (a == b)))
 
 
@@ -133,6 +137,14 @@ def gen_points(gm: lang.GModel, rng, n):
                     overrides[name] = [float(x) for x in np.round(rng.uniform(0.4, 3.0, size=len(data["value"])), 3)]
         yprev = y_decl * rng.uniform(0.8, 1.2, size=ny) if gm.kind == "FDAE" else y
         pts.append((t, y, overrides, yprev))
+    if ts_nodes and gm.kind != "AE" and n >= 3:
+        # back in time: after the later instants, one call inside the FIRST segment of a time series and one exactly at its first
+        # node (a value once interpolated may not depend on which segment was used before)
+        first = sorted(set(ts_nodes))[:2]
+        if len(first) == 2:
+            t_, y_, ov_, yp_ = pts[-1]
+            pts.append((0.5 * (first[0] + first[1]), y_, {}, yp_))
+            pts.append((first[0], y_, {}, yp_))
     return pts
 
 
